@@ -27,7 +27,7 @@ class SplitPrefix(Contract):
         it.ctx.track("symbol_str", a.symbol_str)
 
     def requires(self, it, a):
-        return [("len(symbol_str) >= 1", z3.Length(to_z3(a.symbol_str)) >= 1)]
+        return []          # total: the empty name has no prefix (repaired: used to raise IndexError)
 
     def snapshot(self, it, a):
         return a.unit_symbol_lut.term
@@ -257,7 +257,7 @@ class LookupUnitSymbol(Contract):
         it.ctx.track("prefix", pfx_of(to_z3(a.symbol_str), a.unit_symbol_lut.term))
 
     def requires(self, it, a):
-        return [("len(symbol_str) >= 1", z3.Length(to_z3(a.symbol_str)) >= 1)]
+        return []          # total (C20): an empty name is an unknown symbol -> UnitParseError
 
     def snapshot(self, it, a):
         return a.unit_symbol_lut.term
